@@ -64,17 +64,22 @@ CHECKS = {
             'suspends, close races) all schedules of loop handles, caller threads and server actions with <= 1 '
             'preemption (quick; thorough: 2 for the small scripts) are executed on the real client; part of them '
             'additionally at source-line granularity inside call/_listen/_run/_cleanup_pending_responses. Every '
-            'caller must return its own response or raise; a deadlock verdict is a hang.',
+            'caller must return its own response or raise; a deadlock verdict is a hang. Server side: every sequence '
+            'of <= 2 (quick) / 3 (thorough) requests over 10 request kinds (succeeding and failing evaluations, calls, '
+            'dictionary gets/sets) x 5 delivery patterns on the real handle_client/_listen/execute_server_command with '
+            'two virtual loops: each request is answered with the twin interpreter\'s value or the connection ends, '
+            'never silence on an open connection.',
             'Switches only at handle boundaries, result()/Event.wait, server actions (and source lines in line-level '
             'mode); transport modelled as: EOF leaves the writer open, reset closes it; one transport event per loop '
-            'iteration. Server-side evaluation failures are exercised in C13.',
+            'iteration. The server-side part runs one schedule (loops driven alternately to quiescence).',
             'DESIGN.md §3 C14, Appendix B, C'),
     'C15': ('E3-vloop', 'model_checking',
             'exhaustive enumeration of callback scripts x event-loop dispatch latencies (deviation-bounded) on a '
             'virtual-time asyncio loop running the real timer code, vs. a timer reference model',
             'The real .timer/.timerc code runs on a virtual-time loop; every scenario (interval, start, per-tick '
             'duration/return/action script, external cancels, second timer) is combined with every sequence of '
-            'dispatch-latency choices with at most 1 (quick) / 2 (thorough) deviations; each run is compared tick by '
+            'dispatch-latency choices (a loop iteration runs every handle due when it starts, as _run_once does) '
+            'with at most 1 (quick) / 2 (thorough) deviations; each run is compared tick by '
             'tick with a 40-line timer model (boundaries, no double service, no overlap, stop for good, .timerc '
             'result, re-resolution of the named callback).',
             'BaseEventLoop semantics for handles and clock resolution are trusted; boundary reached exactly when the '
@@ -88,7 +93,8 @@ CHECKS = {
             'Klong-level forms; results compared with a dict model and the byte accounting / LRU / disk invariants are '
             'evaluated on the real cache object after every operation; keys incl. an alias spelling of a nested key and keys that '
             'collide with a directory / a file of other keys (their set must fail and change nothing). Same for the table '
-            'store (documented merge incl. six rows on equal indexes, read back after every set).',
+            'store (documented merge incl. six rows on equal indexes, read back after every set, and after a program changed '
+            'its own copy of a table it read back).',
             'memfs replaces the directory (module-level open/os of klongpy.db.file_cache); sequential use only '
             '(concurrency is C18); merging on (model, entries, LRU order, byte total).',
             'DESIGN.md §3 C16'),
@@ -97,7 +103,9 @@ CHECKS = {
             'a POSIX-style persistence model, each recovered with a fresh store',
             'For every history of up to 2/3 sets the real set path is traced at kernel-call level (real BufferedWriter '
             'over memfs); every crash point and every allowed loss of unsynced data is materialised and read back '
-            'through a fresh KeyValueStorage; acknowledged sets must read back, other keys must be unharmed. Two-epoch '
+            'through a fresh KeyValueStorage; acknowledged sets must read back, other keys must be unharmed. Environment '
+            'deviation, bound 1: every single fsync call of every history fails with EIO in turn (a set that then still '
+            'returns is held to the durability promise; one that raises counts as interrupted). Two-epoch '
             'histories: a process killed inside a set at every trace position (the page cache survives), a new process does '
             '[get,] set, power loss at every position of its trace. The memfs trace is checked against strace of the same '
             'history on a real directory.',
@@ -122,7 +130,7 @@ CHECKS['C20'] = (
     'exhaustive enumeration of route tables x request histories against real .web servers on loopback, and of '
     'websocket message sequences against the real .ws client, vs. a route-table model and call log',
     'All subsets of 3 GET + 3 POST routes (quick: 8) x all request sequences up to the bound (every registered route '
-    'x parameter dictionaries incl. non-ASCII / URL-encoded, wrong method, unknown path, raising handler), handler '
+    'x parameter dictionaries incl. non-ASCII / URL-encoded / empty values / values that look percent-encoded, wrong method, unknown path, raising handler), handler '
     'redefinition and .webc; every sequence of <= 3 websocket messages over the JSON kinds. Each response, the '
     'Klong-side log and the exactly-once property are compared with the model.',
     'Real aiohttp/websockets, real loops, sequential requests: exhaustive over tables and histories, not over '
